@@ -111,6 +111,14 @@ class P:
                     nc.append(c_)
                     nexp[c_] = ",".join(exp)
 
+        # a comment directly before the closing backquote ends there (the substitution ends at its closing backquote)
+        for src, exp in (("echo `a #c`\n", "1.9.63"), ("echo `a #c` d\n", "1.9.63"), ("echo `a | #c\nb #d` e\n", "1.11.63,2.3.64"), ("echo `echo a #c`\nfoo\n", "1.14.63"),
+                         ("echo \"`a # c`\" y\n", "1.10.2063"), ("echo $(a `b #c` #d\n)\n", "1.13.63,1.17.64"), ("echo `a #c\n` # t\n", "1.9.63,2.3.2074"),
+                         ("x=`a #`\n", "1.6."), ("echo $((`a #c` + 1))\n", "1.12.63"), ("cat <<E\n`a #c`\nE\n", "2.4.63"), ("echo `if a; then b; fi #c`\n", "1.24.63")):
+            c_ = G.pcase(src)
+            nc.append(c_)
+            nexp[c_] = exp
+
         def nested_ok(c, o):
             if not o.startswith("ok "):
                 return False
